@@ -29,22 +29,25 @@ theorem filter_q_of_qr {l : List Ev} (h : l.filter isQR = []) : l.filter isQPubl
 
 /-- frame: the relevant components are unchanged, the log is extended by uninteresting events -/
 @[reducible] def Fr (s s' : S) : Prop :=
+  s'.lastMid = s.lastMid ∧
   s'.cfg = s.cfg ∧ s'.proto = s.proto ∧ s'.out = s.out ∧ s'.inflight = s.inflight ∧
   s'.firstConnect = s.firstConnect ∧ s'.infos.length = s.infos.length ∧
   s'.log = s.log ++ evsOf s s' ∧ (evsOf s s').filter isQR = [] ∧ (evsOf s s').filter isQPublish = []
 
 @[reducible] def Fr0 (s s' : S) : Prop :=
+  s'.lastMid = s.lastMid ∧
   s'.cfg = s.cfg ∧ s'.proto = s.proto ∧ s'.out = s.out ∧ s'.inflight = s.inflight ∧
   s'.firstConnect = s.firstConnect ∧ s'.infos.length = s.infos.length ∧
   s'.log = s.log ++ evsOf s s' ∧ (evsOf s s').filter isQR = []
 
 theorem Fr.of0 {s s' : S} (h : Fr0 s s') : Fr s s' :=
-  ⟨h.1, h.2.1, h.2.2.1, h.2.2.2.1, h.2.2.2.2.1, h.2.2.2.2.2.1, h.2.2.2.2.2.2.1, h.2.2.2.2.2.2.2,
-    filter_q_of_qr h.2.2.2.2.2.2.2⟩
+  ⟨h.1, h.2.1, h.2.2.1, h.2.2.2.1, h.2.2.2.2.1, h.2.2.2.2.2.1, h.2.2.2.2.2.2.1, h.2.2.2.2.2.2.2.1, h.2.2.2.2.2.2.2.2,
+    filter_q_of_qr h.2.2.2.2.2.2.2.2⟩
 
 section ite
 variable (c : Prop) [Decidable c] (a b : S)
 @[simp] theorem ite_cfg : (if c then a else b).cfg = if c then a.cfg else b.cfg := by split <;> rfl
+@[simp] theorem ite_lastMid : (if c then a else b).lastMid = if c then a.lastMid else b.lastMid := by split <;> rfl
 @[simp] theorem ite_proto : (if c then a else b).proto = if c then a.proto else b.proto := by split <;> rfl
 @[simp] theorem ite_out : (if c then a else b).out = if c then a.out else b.out := by split <;> rfl
 @[simp] theorem ite_inflight : (if c then a else b).inflight = if c then a.inflight else b.inflight := by split <;> rfl
@@ -54,6 +57,7 @@ variable (c : Prop) [Decidable c] (a b : S)
 end ite
 
 @[simp] theorem emit_cfg (s : S) (e : Ev) : (s.emit e).cfg = s.cfg := rfl
+@[simp] theorem emit_lastMid (s : S) (e : Ev) : (s.emit e).lastMid = s.lastMid := rfl
 @[simp] theorem emit_proto (s : S) (e : Ev) : (s.emit e).proto = s.proto := rfl
 @[simp] theorem emit_out (s : S) (e : Ev) : (s.emit e).out = s.out := rfl
 @[simp] theorem emit_inflight (s : S) (e : Ev) : (s.emit e).inflight = s.inflight := rfl
@@ -187,6 +191,7 @@ theorem packetQueue_rc (s : S) (pkt d) :
 
 
 @[reducible] def Same (s s' : S) : Prop :=
+  s'.lastMid = s.lastMid ∧
   s'.cfg = s.cfg ∧ s'.proto = s.proto ∧ s'.out = s.out ∧ s'.inflight = s.inflight ∧
   s'.firstConnect = s.firstConnect ∧ s'.infos.length = s.infos.length ∧
   s'.log = s.log ++ evsOf s s'
@@ -205,6 +210,21 @@ theorem sendPublish_qr (s : S) (mid t p q r d i dir u) :
   simp only [evsOf]; repeat' split
   all_goals simp [isQR, List.filter_cons]
   all_goals simp_all
+
+/-- with an open socket and an encodable packet the PUBLISH is handed to the connection -/
+theorem sendPublish_qr_some (s : S) (c : Nat) (hs : s.sock = some c) (mid t p q r d i dir u) (b : Bytes)
+    (he : encPublish s.proto mid t p q r d none = .ok b) :
+    (evsOf s (s.sendPublish mid t p q r d i dir (some u)).1).filter isQR = [.qPublish c u mid q d] := by
+  unfold sendPublish
+  simp only [hs, he, evsOf]
+  have h := (packetQueue_fr (s.emit (.qPublish c u mid q d)) (mkPkt 0x30 mid q b i) dir)
+  obtain ⟨_, _, _, _, _, _, _, h7, _, _⟩ := h
+  rw [h7]
+  simp [isQR, List.filter_cons]
+
+theorem sendPublish_noconn (s : S) (hs : s.sock = none) (mid t p q r d i dir u) :
+    s.sendPublish mid t p q r d i dir u = (s, rcNoConn) := by
+  unfold sendPublish; simp [hs]
 
 theorem sendPublish_rc (s : S) (mid t p q r d i dir u) :
     (s.sendPublish mid t p q r d i dir u).2 = rcSuccess ∨ (s.sendPublish mid t p q r d i dir u).2 = rcNoConn ∨
